@@ -132,6 +132,30 @@ let dispatch cmd a =
      | Err e -> "err " ^ err_name e)
     ^ " wf=" ^ tok_of_bool (wf_treeb t) ^ " ptsok=" ^ tok_of_bool (csys_okb c && pts_okb t c g hz0 hz1 pts)
     ^ " caller=" ^ tok_of_qbox caller ^ " fresh=" ^ tok_of_bool (r = r0)
+  | "rsession" ->
+    (* several queries on ONE reader (its cached hierarchy is kept), with transient faults of the source:
+       tree geom hz pts csys steps, steps = qbox/qgrid/levels/fault|...  (fault: - or the index of the read that fails);
+       out: per step outcome@cache, outcome = ok:<tags> | err:<E> | fault, cache = the dictionary after the query *)
+    let t = tree_of_tok a.(0) and g = geom_of_tok a.(1) and (hz0, hz1) = pair_of_tok a.(2) in
+    let pts = lookup_pts (pts_of_tok a.(3)) in
+    let c = csys_of_tok a.(4) in
+    let f = { f_tree = t; f_geom = g; f_hz0 = hz0; f_hz1 = hz1; f_pts = pts } in
+    let step s = match String.split_on_char '/' s with
+      | [qb; qg; lv; fl] ->
+        let qb = qbox_of_tok qb in
+        let q = if qg = "E" then (match ensure_3d qb hz0 hz1 with Some b -> exact_grid c b | None -> zero_q)
+                else if qg = "-" then zero_q else qgrid_of_tok qg in
+        { r_box = qb; r_grid = q; r_lv = levels_of_tok lv; r_fault = (if fl = "-" then None else Some (nat_of_int (int_of_string fl))) }
+      | _ -> failwith ("bad step " ^ s) in
+    let qs = List.map step (String.split_on_char '|' a.(5)) in
+    let outs = reader_session f (open_cache f) qs in
+    String.concat "|" (List.map (fun (h, o) ->
+      (match o with
+       | IOFault -> "fault"
+       | Ans (Ok ps) -> "ok:" ^ (if ps = [] then "-" else String.concat "," (List.map (fun p -> string_of_z p.p_tag) ps))
+       | Ans (Err e) -> "err:" ^ err_name e)
+      ^ "@" ^ tok_of_entries (dict_view h [])) outs)
+    ^ " wf=" ^ tok_of_bool (wf_treeb t)
   | "res" ->
     (match level_range (LvRes (z_of_string a.(0), z_of_string a.(1), z_of_string a.(2), z_of_string a.(3))) with
      | Some (lo, hi) -> string_of_z lo ^ "," ^ string_of_z hi
